@@ -7,6 +7,21 @@ ROOT = os.path.dirname(os.path.dirname(os.path.abspath(__file__)))
 
 # id -> (category, technique, level text, level note, design ref)
 CHECKS = {
+    "C01": ("model_checking",
+            "TLA+ refinement machine (layer over array storage refines an N-d array) checked by TLC + TLC-emitted index tables replayed on the real layers under ASan + trace validation of random larger extents",
+            "TLC checks Refines/InStorage/SizeLaw/Injective for every layout, N in 1..4 and every extent vector in the bound (the index maps are written as the code computes them); the implementation is bound by replaying every enumerated (extents, coordinate) on identity-backed and array-backed layers (portable and -mbmi2, assertions+ASan/UBSan) and by validating recorded index/size events of random larger extents.",
+            "Trusted: TLC, CommunityModules (Json, IOUtils, Bitwise), g++ 12, ASan/UBSan, harness/h_layout.cpp projection. Coordinate-type/storage/M combinations are a rotating cover, not the full cross.",
+            "DESIGN.md section 4, C01"),
+    "C14": ("model_checking",
+            "TLA+ definitions of the index maps as coded vs published curves checked by TLC + TLC-emitted cases replayed on the layers + trace validation on 64-bit bit sequences",
+            "TLC proves, for every coordinate vector below 2^b per axis and boundary patterns, that the portable Morton loop and the mask/pdep construction equal the bit interleave, that row-major equals the Horner form, and that Hilbert xy2d-as-coded is inverted by d2xy with origin and adjacency laws (k <= 6/8); replayed on the real layers over identity<size1> and the static index functions in portable and BMI2 builds; coordinates up to 2^floor(64/N) and Hilbert k <= 10 by trace validation.",
+            "Trusted: TLC, Bitwise module overrides, g++ 12. Hilbert k = 9, 10 and coordinates above the enumerated bit widths are sampled (boundary patterns + random), not exhaustive.",
+            "DESIGN.md section 4, C14"),
+    "C18": ("model_checking",
+            "TLA+ state machines of the round_pow2 / ipow loops with wrap-around checked by TLC (safety + termination) + emitted tables replayed on uint8..uint64 + limb-arithmetic trace validation at 32/64 bits",
+            "TLC exhausts both loops at W=8 (all inputs, all (b,e) pairs, loop invariants), W=12 and W=16, proves termination on the stated domain and exhibits the non-terminating lasso above it; the sizing consequence is the SizeLaw/InStorage invariant of LayoutWR; the implementation is bound by replaying the tables on the four unsigned instantiations and by validating 32/64-bit executions (8-bit limbs) and, thorough, every 32-bit input of round_pow2 per interval.",
+            "Trusted: TLC, g++ 12, Limbs.tla arithmetic. ipow at 32/64 bits is sampled (boundary bases x exponents <= 130).",
+            "DESIGN.md section 4, C18"),
     "C19": ("model_checking",
             "TLA+ state machine of the loop nest checked by TLC + TLC-emitted cases replayed on nd_map + trace validation of real callback histories",
             "TLC exhausts the nd_map loop-nest machine for all extent vectors (dims 1..5, extents 0..B) and proves the recursion-as-coded equal to it; the implementation is bound by replaying every enumerated vector and by validating recorded Visit histories of random larger vectors against the order-free trace spec.",
